@@ -386,3 +386,36 @@ def run_gated(uni: Universe, session: Any, plan: Dict[str, Any], rng: random.Ran
     out["begin_order"] = [u2s.get(u, -1) for k, u in REC.events if k == "begin"]
     out["wall"] = time.time() - t0
     return out
+
+
+# ------------------------------------------------------------------------------------------------------------
+# one long-lived Arrow Flight server per check process (the API caller owns its life cycle)
+# ------------------------------------------------------------------------------------------------------------
+_FLIGHT: List[Any] = []
+
+
+def flight_server() -> Any:
+    import atexit
+    from mloda.core.runtime.flight.runner_flight_server import ParallelRunnerFlightServer
+    if not _FLIGHT:
+        fs = ParallelRunnerFlightServer()
+        fs.start_flight_server_process()
+        _FLIGHT.append(fs)
+        atexit.register(stop_flight_server)
+        time.sleep(0.3)
+    return _FLIGHT[0]
+
+
+def stop_flight_server() -> None:
+    while _FLIGHT:
+        fs = _FLIGHT.pop()
+        try:
+            fs.end_flight_server_process()
+        except Exception:  # noqa: BLE001
+            pass
+
+
+def flight_keys() -> Set[str]:
+    from mloda.core.runtime.flight.flight_server import FlightServer
+    fs = flight_server()
+    return set(FlightServer.list_flight_infos(fs.get_location()))
